@@ -79,7 +79,10 @@ type world struct {
 	failed    bool
 	caseIdx   int
 	exitPolls int
+	noWait    bool
 }
+
+var noWaitGlobal bool
 
 // interpreted program: every frame runs the same command loop, reading (op, arg) from the driver.
 // op 0 return; 1 call node; 2 go node(arg); 3 slot[arg] = closure made by mk (a frame of this goroutine);
@@ -282,7 +285,15 @@ func (w *world) waitUnregistered(goid uintptr) {
 				found = true
 			}
 		}
-		if !found || time.Now().After(deadline) {
+		if !found {
+			return
+		}
+		if w.noWait || time.Now().After(deadline) {
+			if !w.noWait {
+				w.fail("the registry entry of a go-statement goroutine is still present 1.5 s after its function returned (deferred glsDel)", fmt.Sprintf("key %#x", goid), "entry removed")
+			}
+			noWaitGlobal = true
+			w.noWait = true
 			return
 		}
 		w.exitPolls++
@@ -455,7 +466,7 @@ func (w *world) perform(ac action, rng *vh.Rng) {
 func runCase(rep *vh.Report, idx int, rng *vh.Rng, nsteps, maxThreads int) (string, []string, bool) {
 	old := debug.SetGCPercent(-1) // addresses are used as identities within a case: keep them unique
 	defer func() { debug.SetGCPercent(old); runtime.GC() }()
-	w := &world{rep: rep, ack: make(chan ackMsg, 16), recIdx: map[uintptr]int{}, idIdx: map[uintptr]int{}, caseIdx: idx}
+	w := &world{noWait: noWaitGlobal, rep: rep, ack: make(chan ackMsg, 16), recIdx: map[uintptr]int{}, idIdx: map[uintptr]int{}, caseIdx: idx}
 	w.ir = newInterp()
 	w.declare()
 	main := w.newThread("main")
@@ -832,7 +843,7 @@ func main() {
 		"part C: stress rounds (GOMAXPROCS 1,2,4,8; yields injected in odd rounds) of goroutines from go statements and compiled code (incl. sort.Slice callbacks) with the ownership probe at every interpreted call")
 	wd := vh.NewWatchdog(rep, 60*time.Second)
 
-	nA, nB, nC, perC := 40, 250, 8, 400
+	nA, nB, nC, perC := 40, 160, 8, 300
 	if a.Thorough() {
 		nA, nB, nC, perC = 400, 4000, 40, 2000
 	}
